@@ -623,10 +623,15 @@ pub fn gen_temporal(rng: &mut Rng, typ: u8) -> Vec<u8> {
         let mut b = Vec::new();
         if len >= 8 {
             b.push(0); // positive
-            b.extend_from_slice(&(rng.below(35) as u32).to_le_bytes());
-            b.push(rng.below(24) as u8);
-            b.push(rng.below(60) as u8);
-            b.push(rng.below(60) as u8);
+            if rng.chance(1, 4) {
+                // nothing but (possibly) a fraction
+                b.extend_from_slice(&[0, 0, 0, 0, 0, 0, 0]);
+            } else {
+                b.extend_from_slice(&(rng.below(35) as u32).to_le_bytes());
+                b.push(rng.below(24) as u8);
+                b.push(rng.below(60) as u8);
+                b.push(rng.below(60) as u8);
+            }
         }
         if len == 12 {
             b.extend_from_slice(&(rng.range(1, 999_999) as u32).to_le_bytes());
@@ -642,12 +647,25 @@ pub fn gen_temporal(rng: &mut Rng, typ: u8) -> Vec<u8> {
             b.push(rng.range(1, 28) as u8);
         }
         if len >= 7 {
-            b.push(rng.below(24) as u8);
-            b.push(rng.below(60) as u8);
-            b.push(rng.below(60) as u8);
+            // midnight and the last second of the day as often as any other time: a time part of all
+            // zeros with a fraction behind it is a moment like any other
+            let (h, m, s) = match rng.below(4) {
+                0 => (0u8, 0u8, 0u8),
+                1 => (23, 59, 59),
+                _ => (rng.below(24) as u8, rng.below(60) as u8, rng.below(60) as u8),
+            };
+            b.push(h);
+            b.push(m);
+            b.push(s);
         }
         if len == 11 {
-            b.extend_from_slice(&(rng.range(1, 999_999) as u32).to_le_bytes());
+            let us = match rng.below(4) {
+                0 => 1u32,
+                1 => 999_999,
+                2 => 250_000,
+                _ => rng.range(1, 999_999) as u32,
+            };
+            b.extend_from_slice(&us.to_le_bytes());
         }
         b
     }
@@ -658,12 +676,22 @@ pub fn param_types() -> Vec<u8> {
     let mut v = wire::STRINGISH.to_vec();
     v.extend_from_slice(&INT_TYPES);
     v.extend_from_slice(&[wire::T_FLOAT, wire::T_DOUBLE, wire::T_TIMESTAMP, wire::T_DATETIME, wire::T_DATE, wire::T_TIME]);
+    // what clients bind an argument that is NULL as: a legal binding like any other (it has no value
+    // bytes; a later rebind replaces it, a later reuse keeps it)
+    v.push(wire::T_NULL);
     v
 }
 
 pub fn gen_param_of(rng: &mut Rng, typ: u8, unsigned: bool, null: bool) -> Param {
     let value = if null {
         None
+    } else if typ == wire::T_NULL {
+        // the NULL-bitmap bit set (what clients send) or clear: no bytes either way
+        if rng.bool() {
+            None
+        } else {
+            Some(PVal::Bytes(vec![]))
+        }
     } else if wire::int_width(typ).is_some() {
         let (lo, hi) = int_range(typ, unsigned);
         Some(PVal::Int(gen_int_in(rng, lo, hi)))
